@@ -81,7 +81,7 @@ class Unit:
         self.extra_srcs = list(extra_srcs)
 
     def key(self):
-        return hashlib.sha1(json.dumps([self.name, self.shim, self.defines, self.clang_extra, self.ir2c_args]).encode()).hexdigest()[:10]
+        return hashlib.sha1(json.dumps([self.name, self.shim, self.defines, self.clang_extra, self.ir2c_args, self.extra_srcs]).encode()).hexdigest()[:10]
 
 
 class Builder:
@@ -101,10 +101,19 @@ class Builder:
         os.makedirs(d, exist_ok=True)
         ll = os.path.join(d, u.name + '.ll')
         if not os.path.exists(ll):
-            cmd = CLANG_BASE + u.clang_extra + ['-D' + x for x in u.defines] + self.incs() + [os.path.join(VERIF, 'shim', u.shim), '-o', ll]
-            r = sh(cmd)
-            if r.returncode != 0:
-                raise BrokenCheck('clang failed for %s:\n%s' % (u.shim, r.stderr[-3000:]))
+            srcs = [os.path.join(VERIF, 'shim', u.shim)] + [os.path.join(REPO, x) for x in u.extra_srcs]
+            parts = []
+            for k, src in enumerate(srcs):
+                pl = os.path.join(d, 'part%d.ll' % k) if len(srcs) > 1 else ll
+                cmd = CLANG_BASE + u.clang_extra + ['-D' + x for x in u.defines] + self.incs() + [src, '-o', pl]
+                r = sh(cmd)
+                if r.returncode != 0:
+                    raise BrokenCheck('clang failed for %s:\n%s' % (src, r.stderr[-3000:]))
+                parts.append(pl)
+            if len(srcs) > 1:
+                r = sh(['llvm-link-14', '-S'] + parts + ['-o', ll])
+                if r.returncode != 0:
+                    raise BrokenCheck('llvm-link failed for %s:\n%s' % (u.name, r.stderr[-3000:]))
         c = os.path.join(d, '%s%s.c' % (prefix, u.name))
         meta = c + '.json'
         cmd = [sys.executable, os.path.join(ENGINE, 'ir2c.py'), ll, '-o', c, '--meta', meta, '--prefix', prefix] + u.ir2c_args
@@ -125,11 +134,20 @@ class Builder:
         if os.path.exists(o):
             return o
         flags = ['-fsanitize=address,undefined', '-fno-sanitize-recover=undefined', '-g', '-O1'] if san else ['-O1']
-        cmd = ['g++', '-std=c++17', '-fno-access-control', '-w', '-DWENCRY_VERIF', '-DOPT_ON', '-c'] + flags + \
-              ['-D' + x for x in u.defines] + ['-D' + x for x in extra_defs] + self.incs() + [os.path.join(VERIF, 'shim', u.shim), '-o', o]
-        r = sh(cmd)
-        if r.returncode != 0:
-            raise BrokenCheck('g++ failed for %s:\n%s' % (u.shim, r.stderr[-3000:]))
+        srcs = [os.path.join(VERIF, 'shim', u.shim)] + [os.path.join(REPO, x) for x in u.extra_srcs]
+        parts = []
+        for k, src in enumerate(srcs):
+            po = o if len(srcs) == 1 else o[:-2] + '_p%d.o' % k
+            cmd = ['g++', '-std=c++17', '-fno-access-control', '-w', '-DWENCRY_VERIF', '-DOPT_ON', '-c'] + flags + \
+                  ['-D' + x for x in u.defines] + ['-D' + x for x in extra_defs] + self.incs() + [src, '-o', po]
+            r = sh(cmd)
+            if r.returncode != 0:
+                raise BrokenCheck('g++ failed for %s:\n%s' % (src, r.stderr[-3000:]))
+            parts.append(po)
+        if len(srcs) > 1:
+            r = sh(['ld', '-r', '-o', o] + parts)
+            if r.returncode != 0:
+                raise BrokenCheck('ld -r failed: %s' % r.stderr[-2000:])
         return o
 
 
@@ -248,6 +266,10 @@ class Run:
             return ob
         props, verdict = parse_cbmc_text(out)
         ob.nprops = len(props)
+        nb = re.findall(r'no body for (?:function|callee) (\S+)', out + err)
+        if nb:
+            ob.status, ob.detail = 'ERROR', 'environment incomplete: no body for %s' % sorted(set(nb))[:8]
+            return ob
         if verdict is None or rc not in (0, 10):
             ob.status = 'UNDECIDED' if ('std::bad_alloc' in err or 'Out of memory' in err or rc in (-9, 137)) else 'ERROR'
             ob.detail = 'cbmc rc=%s: %s' % (rc, (err.strip() or out.strip())[-1500:])
@@ -325,7 +347,7 @@ class Run:
         r = sh(['g++', '-fsanitize=address,undefined', '-o', exe] + cobjs + objs + ['-lpthread'])
         if r.returncode != 0:
             raise BrokenCheck('replay link failed: %s' % r.stderr[-2000:])
-        env = dict(os.environ, ASAN_OPTIONS='detect_leaks=0:abort_on_error=0', UBSAN_OPTIONS='print_stacktrace=1')
+        env = dict(os.environ, ASAN_OPTIONS='detect_leaks=0:abort_on_error=0:new_delete_type_mismatch=0:alloc_dealloc_mismatch=0', UBSAN_OPTIONS='print_stacktrace=1')
         rc, out, err, wall, rss = run_limited([exe], 60, None, cwd=d, env=env)
         txt = (out + '\n' + err)
         if rc == 0 and 'REPLAY-PASS' in out:
